@@ -201,13 +201,13 @@ func (g *c14Gen) fnCall(tb c14Table) string {
 			"check_peg_parser", "test_vector_types", "repeat", "unnest", "json_each", "json_tree", "sql_auto_complete", "which_secret":
 			continue // not path readers (query* are a separate spelling below)
 		}
-		if !f.Listed && verifkit.Excluded(c14FindDenylistGap) {
+		// the open finding names these two; every other function DuckDB's
+		// catalog lists stays in the pool whether or not arc's list has it
+		if (f.Name == "parquet_full_metadata" || f.Name == "read_duckdb") && verifkit.Excluded(c14FindDenylistGap) {
+			verifkit.CountExcluded(c14FindDenylistGap)
 			continue
 		}
 		fns = append(fns, fn{f.Name, f.Listed})
-	}
-	if verifkit.Excluded(c14FindDenylistGap) && g.chance("exgap", 10) {
-		verifkit.CountExcluded(c14FindDenylistGap)
 	}
 	// arc's own list also names functions this DuckDB build does not have
 	fns = append(fns, fn{"read_xlsx", true}, fn{"delta_scan", true}, fn{"iceberg_scan", true}, fn{"arc_partition_agg", true})
@@ -261,7 +261,7 @@ func (g *c14Gen) ref(tb c14Table, header string) string {
 	g.ment = g.ment || !tb.Allowed
 	db, m := tb.DB, tb.M
 	kinds := []string{"dotted", "dotted", "dotted", "dotted-ws", "dotted-quoted", "dotted-case", "backtick", "three-part",
-		"path-sq", "path-sq", "path-dq", "path-lit", "fn", "fn", "query"}
+		"path-sq", "path-sq", "path-dq", "path-lit", "fn", "fn", "fn", "query"}
 	if header != "" {
 		kinds = append(kinds, "bare", "bare", "bare-quoted")
 	}
@@ -549,17 +549,25 @@ type c14Case struct {
 func c14GenCase(t *rapid.T, e *c14Env) c14Case {
 	for try := 0; ; try++ {
 		c := c14GenCase1(t, e)
-		if verifkit.Excluded(c14FindQuoteComment) && c14HasFeature(c, "cmt:quote") && strings.Contains(strings.ToLower(c.Req.SQL), "read_parquet") {
-			// open finding: any text containing "read_parquet" is executed verbatim
-			// (transform fast path), so a quote inside a comment hides whatever follows
+		if verifkit.Excluded(c14FindQuoteComment) && c14HasFeature(c, "cmt:quote") && c14ExecutedVerbatim(c.Req.SQL) {
+			// open finding: a statement whose text contains "read_parquet", or no
+			// "from"/"join" at all, is executed verbatim (getTransformedSQL fast
+			// paths), so a quote inside a comment hides whatever follows it
 			verifkit.CountExcluded(c14FindQuoteComment)
 			if try < 20 {
 				continue
 			}
-			c.Req.SQL = strings.NewReplacer("read_parquet", "read_parquex", "READ_PARQUET", "READ_PARQUEX").Replace(c.Req.SQL)
+			c.Req.SQL = "SELECT 1 FROM db1.cpu LIMIT 1"
 		}
 		return c
 	}
+}
+
+// c14ExecutedVerbatim mirrors the two fast paths of getTransformedSQL that hand
+// the caller's text to DuckDB unchanged.
+func c14ExecutedVerbatim(sqlText string) bool {
+	l := strings.ToLower(sqlText)
+	return strings.Contains(l, "read_parquet") || !(strings.Contains(l, "from") || strings.Contains(l, "join"))
 }
 
 func c14HasFeature(c c14Case, f string) bool {
